@@ -349,3 +349,79 @@ Example discovery_insertions_example :
   exists r, disc_runb bare_root example_steps = Some r /\ disc_ord r /\
             map (fun c => List.length (onch c)) (onch r) = [2; 1]%nat /\ List.length (nflatten r) = 10%nat.
 Proof. exact discovery_example. Qed.
+
+(* ---------- what the insertions of a discovery keep, and the cover clause (Topo/DiscPresenceProofs.v) ---------- *)
+From HV Require Import Topo.DiscPresenceProofs Topo.DiscSourcesProofs.
+
+(* one call: nothing invented, nothing lost except a mergeable Group giving way to an object with the same
+   cpuset, OBJ's cpuset is the cpuset of some object afterwards, OBJ itself is there when the call says so *)
+Theorem insertion_keeps_objects : forall dms dm_new root o root' out,
+  disc_ord root -> disc_hyp dms dm_new root o ->
+  insert_by_cpuset dms dm_new root o = (root', out) -> out <> OFail ->
+  objects_kept (odata o) out root root'.
+Proof. exact insert_root_keeps_objects. Qed.
+Print Assumptions insertion_keeps_objects.
+
+(* a whole discovery: every object of the final tree was requested (or was there), cpusets never disappear,
+   every requested cpuset is the cpuset of some object of the final tree *)
+Theorem discovery_insertions_keep_objects : forall root steps root',
+  disc_run root steps root' -> disc_ord root ->
+  (forall y, In y (npay root') -> In y (npay root) \/ exists s, In s steps /\ y = odata (step_obj s)) /\
+  (forall k, has_key root k -> has_key root' k) /\
+  (forall s, In s steps -> has_key root' (ApiProofs.dcs (odata (step_obj s)))).
+Proof. exact discovery_keeps_objects. Qed.
+Print Assumptions discovery_insertions_keep_objects.
+
+(* in an ordered tree two objects that share a cpu are on one branch *)
+Theorem ordered_tree_one_branch : forall root a b j, disc_ord root ->
+  In a (nflattens (onch root)) -> In b (nflattens (onch root)) ->
+  mem j (okey a) = true -> mem j (okey b) = true -> In a (nflatten b) \/ In b (nflatten a).
+Proof. exact disc_one_branch. Qed.
+Print Assumptions ordered_tree_one_branch.
+
+(* THE COVER CLAUSE, for every sequence of insertions: from the root as setup_defaults leaves it, when every cpu
+   of every requested cpuset is also requested alone (the PUs), each object below the root has, for each of its
+   cpus, a child holding that cpu - unless its cpuset is that single cpu.  With discovery_insertions_keep_order
+   (children pairwise disjoint, included in the parent): the cpuset of every object that is not a single cpu is
+   the disjoint union of its children's cpusets. *)
+Theorem discovery_children_cover_cpusets : forall root steps root',
+  disc_run root steps root' -> onch root = [] -> (forall j, mem j (ApiProofs.dcs (odata root)) = false) ->
+  (forall s j, In s steps -> mem j (ApiProofs.dcs (odata (step_obj s))) = true ->
+               exists s', In s' steps /\ singleton_of (ApiProofs.dcs (odata (step_obj s'))) j) ->
+  forall X j, In X (nflattens (onch root')) -> mem j (okey X) = true ->
+    (exists c, In c (onch X) /\ mem j (okey c) = true) \/ (forall k, mem k (okey X) = true -> k = j).
+Proof. exact discovery_covers. Qed.
+Print Assumptions discovery_children_cover_cpusets.
+
+(* the executable form evaluated on every traced load (cover=1 in the driver's output) is sound *)
+Theorem discovery_cover_executable : forall steps r,
+  disc_runb bare_root steps = Some r -> singletons_okb (map (fun s => ApiProofs.dcs (odata (step_obj s))) steps) = true ->
+  forall X j, In X (nflattens (onch r)) -> mem j (okey X) = true ->
+    (exists c, In c (onch X) /\ mem j (okey c) = true) \/ (forall k, mem k (okey X) = true -> k = j).
+Proof. exact discovery_covers_executable. Qed.
+Print Assumptions discovery_cover_executable.
+
+(* the modelled backends meet the hypothesis "every cpu of every requested cpuset is requested alone":
+   the synthetic backend whenever the leaf level is kept (PUs cannot be filtered out) ... *)
+Theorem synthetic_requests_request_every_cpu_alone : forall keep sy l0 below,
+  Synthetic.sy_levels sy = l0 :: below -> shape_ok below -> keep (Synthetic.lv_type (leaf_of below)) = true ->
+  let '(set, rs) := requests keep sy in
+  forall r j, In r rs -> mem j (r_cs r) = true -> exists r', In r' rs /\ r_cs r' = bs_single j.
+Proof. exact synthetic_requests_have_singletons. Qed.
+Print Assumptions synthetic_requests_request_every_cpu_alone.
+
+(* ... and the Linux CPU discovery whatever the sysfs files contain *)
+Theorem linux_cpu_requests_request_every_cpu_alone : forall keep v r j,
+  In r (linux_cpu_requests keep v) -> mem j (q_cs r) = true ->
+  exists r', In r' (linux_cpu_requests keep v) /\ q_cs r' = bs_single j /\ q_type r' = HWLOC_OBJ_PU.
+Proof. exact linux_requests_have_singletons. Qed.
+Print Assumptions linux_cpu_requests_request_every_cpu_alone.
+
+Example discovery_cover_example :
+  exists r, disc_runb bare_root (firstn 8 example_steps) = Some r /\
+    (forall X j, In X (nflattens (onch r)) -> mem j (okey X) = true ->
+       (exists c, In c (onch X) /\ mem j (okey c) = true) \/ (forall k, mem k (okey X) = true -> k = j)) /\
+    map (fun c => (o_type (odata c), okey c)) (nflattens (onch r)) =
+      [(HWLOC_OBJ_PACKAGE, bs_of_N 15); (HWLOC_OBJ_CORE, bs_of_N 3); (HWLOC_OBJ_PU, bs_of_N 1); (HWLOC_OBJ_PU, bs_of_N 2);
+       (HWLOC_OBJ_CORE, bs_of_N 12); (HWLOC_OBJ_PU, bs_of_N 4); (HWLOC_OBJ_PU, bs_of_N 8)].
+Proof. exact discovery_covers_example. Qed.
